@@ -68,9 +68,31 @@ NEEDS3 = {
  "C19": "Square::from_str on a text of three or more bytes that starts with a valid square",
  "C20": "a checking, non-mating quiet move played at half-move clock 99 or 100",
 }
+NEEDS4 = {
+ "C01": "an accepted (parsed/built) board with an en-passant capture whose victim shields the mover's king from a bishop or queen on a diagonal (not reachable by legal play)",
+ "C02": "a rook on its own castling square captures the rook on the opponent's castling square of the same file (Ra1xa8 with Qq)",
+ "C03": "a move after which one of the mover's own pieces stands alone between the mover's slider and the enemy king",
+ "C04": "any position with a legal promotion; is_legal of the same move promoting to a king",
+ "C05": "get_between_rays for a non-aligned pair whose index difference is a multiple of 7, 8 or 9 (direct look-up, never issued by the library)",
+ "C06": "a null move on a board whose half-move clock is already 100",
+ "C07": "a double pawn push answered by a double push on a different file, then a FEN round trip (hash differs)",
+ "C08": "a record whose en-passant field is a single two-byte character",
+ "C09": "a builder state with half-move clock 101..255 or full-move number 0 (build panics instead of returning the error)",
+ "C10": "Chess960 castling where the rook stands on the king's destination or the king on the rook's destination",
+ "C11": "a null move with Black to move",
+ "C12": "not in check, the only legal move is a Chess960 castle with the king on the f-file (short) or d-file (long)",
+ "C13": "two boards with different en-passant files, neither capturable",
+ "C14": "any null move (the full-move number advances after White instead of after Black)",
+ "C15": "try_play of any illegal move",
+ "C16": "two unpinned knights with moves; the listener aborts on the first knight batch",
+ "C17": "a hand-built pawn batch with a first-rank destination plus plain destinations, queried part-way through the promotions",
+ "C18": "flip_files of a set with a member on the eighth rank",
+ "C19": "the empty string parsed as File, Rank, Piece or Color",
+ "C20": "a non-pawn piece moving onto the empty en-passant square right after a double push",
+}
 ONLY = [a for a in sys.argv[1:] if not a.startswith("--")]
 for d in sorted(os.listdir(os.path.join(HERE, "seeded"))):
-    m = re.match(r"agent([23]?)-(C\d+)$", d)
+    m = re.match(r"agent([234]?)-(C\d+)$", d)
     if not m:
         continue
     if ONLY and not any(o in d for o in ONLY):
@@ -104,7 +126,7 @@ for d in sorted(os.listdir(os.path.join(HERE, "seeded"))):
         for line in out.splitlines():
             mm = re.match(r"(C\d+) exit=(\d) violations=(\d+)", line)
             if mm and mm.group(2) == "1":
-                rp = "/tmp/mut.%s.out" % mm.group(1)
+                rp = "%s/mut.%s.out" % (os.environ.get("MUT_OUT", "/tmp"), mm.group(1))
                 keys = []
                 for l2 in open(rp):
                     k2 = re.match(r"\s+([\w.+\[\]-]+:[^ ]+): ", l2)
@@ -114,12 +136,12 @@ for d in sorted(os.listdir(os.path.join(HERE, "seeded"))):
     meta = {
         "breaks_property": pid,
         "written_by": "independent sub-agent given only the property text and a scratch worktree",
-        "needs_to_manifest": {1: NEEDS, 2: NEEDS2, 3: NEEDS3}[rnd].get(pid, ""),
+        "needs_to_manifest": {1: NEEDS, 2: NEEDS2, 3: NEEDS3, 4: NEEDS4}[rnd].get(pid, ""),
         "round": rnd,
         "files": ["patch.diff", "demo/", "NOTES.md"],
         "independent_confirmation": conf,
         "confirmation_procedure": "tools/confirm_seed.sh <worktree>: git apply --check on a clean checkout; demo exit code without and with the patch; cargo test --workspace --offline --lib with the patch",
-        "checks_run": "tools/mut.sh seeded/%s/patch.diff C01..C20 (patch applied to /repo, quick tier, reverted afterwards)" % d,
+        "checks_run": "tools/mut.sh seeded/%s/patch.diff C01..C20 (patch applied to %s, quick tier, reverted afterwards)" % (d, "a scratch worktree of /repo read through CVA_REPO" if os.environ.get("MUT_WT") else "/repo"),
         "caught_by": caught,
     }
     json.dump(meta, open(mp, "w"), indent=1)
